@@ -6,6 +6,7 @@ pub mod extra;
 pub mod front;
 pub mod mem;
 pub mod nodes;
+pub mod race;
 pub mod replay;
 pub mod stress;
 pub mod trace;
